@@ -631,9 +631,10 @@ func enumC16(env *EnumEnv, it *WorkItem) *EnumResult {
 	res := &EnumResult{Exhaustive: true}
 	reported := map[string]bool{}
 	idx := 0
+	g := &budgetGuard{env: env, res: res}
 	eval := func(c submitCase) {
 		idx++
-		if idx%it.NShards != it.Shard {
+		if idx%it.NShards != it.Shard || g.over() {
 			return
 		}
 		res.Evaluations++
@@ -652,6 +653,7 @@ func enumC16(env *EnumEnv, it *WorkItem) *EnumResult {
 		}
 	}
 	for base := 0; base < 3; base++ {
+		g.phase = fmt.Sprintf("base shape %d: single mutations, then pairs", base)
 		eval(submitCase{Base: base})
 		objs := listObjects(basePlan(base))
 		var singles [][2]int
